@@ -133,6 +133,10 @@ def run_one(case, ctx, base_ok):
     else:
         _, text, _ = gram.render_layout(case[1], gram.Cyc(case[2]), comments=0.3, pools=POOLS)
     variant = hash(text) % 4
+    if hash(text) % 7 == 3:
+        # whatever the long-lived parser served before (failed parses, list_names generators abandoned or still suspended) must not move the line numbers
+        gram.earlier_call(ctx.P, gram.Cyc(hash(text) & 0xffff))
+        ctx.count('errors_preceded_by_an_arbitrary_earlier_call')
     if variant == 1:
         # resubmission on a caching parser: first the text itself, then the same text below two more blank lines
         ctx.count('resubmissions_on_a_caching_parser')
